@@ -6,6 +6,7 @@ import (
 	"go/types"
 	"strings"
 	"unicode"
+	"unicode/utf16"
 	"unicode/utf8"
 
 	"golang.org/x/tools/go/ssa"
@@ -2705,4 +2706,557 @@ func rulePoolPutCarriesNoState(c *eng.Ctx) {
 		}
 	}
 	c.Ok(R, "module#scanned", token.NoPos, fmt.Sprintf("%d slices and buffers put back into a pool", n))
+}
+
+// ---------------------------------------------------------------------------------------------------------------
+// R7.13 CMap destinations, read as UTF-16BE on a family of hex strings.
+
+// R7.13 [C07]
+func ruleHexToUnicodeEvaluated(c *eng.Ctx) {
+	const R = "R7.13-HEX-TO-UNICODE-EVALUATED"
+	c.Rule(R, "font.hexToUnicode, evaluated on the hexadecimal spelling (upper and lower case) of UTF-16BE texts - single BMP characters from every block boundary, supplementary-plane characters as surrogate pairs, ligature and multi-character targets, a leading byte-order mark: the answer is the text; a lone surrogate gives valid UTF-8 or an error, never invalid bytes", 1, 0)
+	fn := c.P.Func("font.hexToUnicode")
+	if fn == nil || len(fn.Params) != 1 {
+		c.Ok(R, "font.hexToUnicode", token.NoPos, "no such function: not evaluated")
+		return
+	}
+	texts := []string{"A", "z", "é", "Ā", "߿", "ࠀ", " ", "ﬁ", "퟿", "", "", "�", "\U00010000", "\U0001F600", "\U0001F44B", "\U0010FFFF", "ffi", "Á", "世界", "x\U0001D11Ey", "\U0001F468‍\U0001F469"}
+	enc := func(s string, format string) string {
+		out := ""
+		for _, u := range utf16.Encode([]rune(s)) {
+			out += fmt.Sprintf(format, u)
+		}
+		return out
+	}
+	n, bad, skipped := 0, "", ""
+	run := func(in string) (string, bool, bool) {
+		got, err := eng.NewEvaluator().Call(fn, []any{in}, 0)
+		if err != nil {
+			if err.Panic {
+				return "", true, true
+			}
+			skipped = err.Msg
+			return "", false, false
+		}
+		t, ok := got.(eng.ETuple)
+		if !ok || len(t) != 2 {
+			skipped = "result is not (string, error)"
+			return "", false, false
+		}
+		s, _ := t[0].(string)
+		return s, t[1] != nil, true
+	}
+outer:
+	for _, text := range texts {
+		for _, format := range []string{"%04X", "%04x"} {
+			h := enc(text, format)
+			// (white space inside the hex string is not part of this rule: where it is removed is the callers' business)
+			for _, in := range []string{h, "FEFF" + h} {
+				out, failed, ok := run(in)
+				if !ok {
+					break outer
+				}
+				n++
+				if failed || out != text {
+					bad = fmt.Sprintf("hexToUnicode(%q) = %q (error %v), the UTF-16BE text is %q", in, out, failed, text)
+					break outer
+				}
+			}
+		}
+	}
+	if bad == "" && skipped == "" {
+		for _, in := range []string{"D83D", "DC00", "D83D0041", "0041DC00"} {
+			out, failed, ok := run(in)
+			if !ok {
+				break
+			}
+			n++
+			if !failed && !utf8.ValidString(out) {
+				bad = fmt.Sprintf("hexToUnicode(%q) = %q, which is not valid UTF-8", in, out)
+				break
+			}
+		}
+	}
+	if skipped != "" {
+		c.Ok(R, "font.hexToUnicode", fn.Pos(), "not evaluated: "+skipped)
+		return
+	}
+	c.Check(bad == "", R, "font.hexToUnicode#spec", fn.Pos(), fmt.Sprintf("%d hex strings evaluated", n), "a CMap destination is not decoded as UTF-16BE: "+bad)
+}
+
+// ---------------------------------------------------------------------------------------------------------------
+// R6.17 both object parsers, read on a family of object spellings.
+
+// pdfRef and pdfName are the specification's values for references and names (strings are Go strings, arrays
+// []any, dictionaries map[string]any, null is nil, integers int64, reals float64).
+type pdfRef struct{ num, gen int64 }
+type pdfName string
+
+// treeOf converts an evaluated core.Object into the specification's value.
+func treeOf(v any) (any, bool) {
+	ifc, ok := v.(*eng.EIface)
+	if !ok {
+		return nil, false
+	}
+	tn := eng.TypeName(ifc.T)
+	switch {
+	case strings.HasSuffix(tn, "core.Null"):
+		return nil, true
+	case strings.HasSuffix(tn, "core.Bool"):
+		b, ok := ifc.V.(bool)
+		return b, ok
+	case strings.HasSuffix(tn, "core.Int"):
+		i, ok := ifc.V.(int64)
+		return i, ok
+	case strings.HasSuffix(tn, "core.Real"):
+		f, ok := ifc.V.(float64)
+		return f, ok
+	case strings.HasSuffix(tn, "core.String"):
+		s, ok := ifc.V.(string)
+		return s, ok
+	case strings.HasSuffix(tn, "core.Name"):
+		s, ok := ifc.V.(string)
+		return pdfName(s), ok
+	case strings.HasSuffix(tn, "core.Array"):
+		sl, ok := ifc.V.(*eng.ESlice)
+		if !ok {
+			return nil, false
+		}
+		out := []any{}
+		for _, l := range sl.L {
+			e, ok := treeOf(l.V)
+			if !ok {
+				return nil, false
+			}
+			out = append(out, e)
+		}
+		return out, true
+	case strings.HasSuffix(tn, "core.Dict"):
+		m, ok := ifc.V.(*eng.EMap)
+		if !ok {
+			return nil, false
+		}
+		out := map[string]any{}
+		for k, ev := range m.M {
+			ks, ok := k.(string)
+			if !ok {
+				return nil, false
+			}
+			e, ok := treeOf(ev)
+			if !ok {
+				return nil, false
+			}
+			out[ks] = e
+		}
+		return out, true
+	case strings.HasSuffix(tn, "core.IndirectRef"):
+		st, ok := ifc.V.(*eng.EStruct)
+		if !ok || len(st.F) < 2 {
+			return nil, false
+		}
+		a, ok1 := st.F[0].(int64)
+		b, ok2 := st.F[1].(int64)
+		return pdfRef{a, b}, ok1 && ok2
+	}
+	return nil, false
+}
+
+func treeEqual(a, b any) bool {
+	switch x := a.(type) {
+	case nil:
+		return b == nil
+	case []any:
+		y, ok := b.([]any)
+		if !ok || len(x) != len(y) {
+			return false
+		}
+		for i := range x {
+			if !treeEqual(x[i], y[i]) {
+				return false
+			}
+		}
+		return true
+	case map[string]any:
+		y, ok := b.(map[string]any)
+		if !ok || len(x) != len(y) {
+			return false
+		}
+		for k, v := range x {
+			w, ok := y[k]
+			if !ok || !treeEqual(v, w) {
+				return false
+			}
+		}
+		return true
+	case float64:
+		// an integer-valued real may be read as a real or, written without a point, as an integer: compared as written
+		y, ok := b.(float64)
+		return ok && x == y
+	}
+	return a == b
+}
+
+type objectCase struct {
+	spelling string
+	tree     any
+	coreOnly bool // indirect references are not operands of a content stream
+}
+
+func objectCases() []objectCase {
+	cs := []objectCase{
+		{"null", nil, false}, {"true", true, false}, {"false", false, false},
+		{"0", int64(0), false}, {"1", int64(1), false}, {"-1", int64(-1), false}, {"+17", int64(17), false},
+		{"2147483647", int64(2147483647), false}, {"-2147483648", int64(-2147483648), false}, {"007", int64(7), false},
+		{"3.14", 3.14, false}, {"-.002", -0.002, false}, {"+.5", 0.5, false}, {".5", 0.5, false}, {"5.", 5.0, false}, {"0.0", 0.0, false}, {"-2.5", -2.5, false}, {"123456789.125", 123456789.125, false},
+		{"(abc)", "abc", false}, {"()", "", false}, {"(a(b)c)", "a(b)c", false}, {"(a\\(b\\)c)", "a(b)c", false}, {"(\\n\\r\\t\\b\\f\\\\)", "\n\r\t\b\f\\", false},
+		{"(\\101\\7\\0053)", "A\a\x053", false}, {"(line\\\nbreak)", "linebreak", false}, {"(line\\\r\nbreak)", "linebreak", false}, {"(\xe9\xff\x80)", "\xe9\xff\x80", false}, {"(a b  c)", "a b  c", false}, {"(% not a comment)", "% not a comment", false}, {"(\\q)", "q", false},
+		{"<48656C6C6F>", "Hello", false}, {"<48 65 6c\n6C 6F>", "Hello", false}, {"<4>", "@", false}, {"<>", "", false}, {"<E9FF>", "\xe9\xff", false},
+		{"/Name", pdfName("Name"), false}, {"/A#20B", pdfName("A B"), false}, {"/#2F", pdfName("/"), false}, {"/a.b-c_d", pdfName("a.b-c_d"), false}, {"/#E9t#C3#A9", pdfName("\xe9t\xc3\xa9"), false},
+		{"[1 2 3]", []any{int64(1), int64(2), int64(3)}, false}, {"[]", []any{}, false}, {"[1[2]3]", []any{int64(1), []any{int64(2)}, int64(3)}, false},
+		{"[/A/B]", []any{pdfName("A"), pdfName("B")}, false}, {"[(a)(b)]", []any{"a", "b"}, false}, {"[<41><42>]", []any{"A", "B"}, false}, {"[true false null]", []any{true, false, nil}, false},
+		{"[ 1 (a) /N [ 2 ] ]", []any{int64(1), "a", pdfName("N"), []any{int64(2)}}, false}, {"[1.5/N(s)<41>]", []any{1.5, pdfName("N"), "s", "A"}, false},
+		{"<</A 1/B(x)>>", map[string]any{"A": int64(1), "B": "x"}, false}, {"<< /K [1 2] /D << /E /F >> >>", map[string]any{"K": []any{int64(1), int64(2)}, "D": map[string]any{"E": pdfName("F")}}, false}, {"<<>>", map[string]any{}, false},
+		{"<</S<41>/T<</U(v)>>>>", map[string]any{"S": "A", "T": map[string]any{"U": "v"}}, false},
+		{"12 0 R", pdfRef{12, 0}, true}, {"[1 0 R 2 5 R]", []any{pdfRef{1, 0}, pdfRef{2, 5}}, true}, {"<</P 3 0 R/N 4>>", map[string]any{"P": pdfRef{3, 0}, "N": int64(4)}, true}, {"[1 2 3 0 R]", []any{int64(1), pdfRef{2, 3 - 3}, nil}[:0], true},
+		{"[1 2 % last\n]", []any{int64(1), int64(2)}, false}, {"[% only\n]", []any{}, false}, {"[[1 % in\r\n] 2]", []any{[]any{int64(1)}, int64(2)}, false}, {"<</A 1 % c\n>>", map[string]any{"A": int64(1)}, false}, {"<</A % c\n 1>>", map[string]any{"A": int64(1)}, false},
+		{"[1 % comment\n 2]", []any{int64(1), int64(2)}, false}, {"% lead\n42", int64(42), false}, {"[(a)%c\r\n(b)]", []any{"a", "b"}, false},
+	}
+	// drop the placeholder case built above only to keep the literal compact
+	out := cs[:0]
+	for _, c := range cs {
+		if c.spelling == "[1 2 3 0 R]" {
+			c.tree = []any{int64(1), pdfRef{2, 3}}
+			c.spelling = "[1 2 3 R]"
+		}
+		out = append(out, c)
+	}
+	// the same trees with other white space between the tokens
+	n := len(out)
+	for i := 0; i < n; i++ {
+		c := out[i]
+		if strings.ContainsAny(c.spelling, "(%") || !strings.Contains(c.spelling, " ") {
+			continue // blanks inside strings and comments are content
+		}
+		for _, ws := range []string{"\n", "\r\n", "\t", "  ", "\f"} {
+			out = append(out, objectCase{strings.ReplaceAll(c.spelling, " ", ws), c.tree, c.coreOnly})
+		}
+	}
+	return out
+}
+
+// R6.17 [C06]
+func ruleObjectSpellingsEvaluated(c *eng.Ctx) {
+	const R = "R6.17-OBJECT-SPELLINGS-EVALUATED"
+	c.Rule(R, "core.NewParser(...).ParseObject and contentstream.NewParser(...).Parse, evaluated on a family of object spellings - null, booleans, integers with signs and at the 32-bit limits, reals with and without integer part and sign, literal strings with nested and escaped parentheses, all escapes, octal codes, line continuations and bytes above 0x7F, hex strings with white space and an odd digit, names with #xx escapes, arrays and dictionaries with and without white space around delimiters, comments, and the five white-space spellings between tokens; indirect references for the document parser: each parser returns the tree the spelling stands for, so both assign the same value to every operand both accept", 2, 0)
+	newCore := c.P.Func("core.NewParser")
+	parseObj := c.P.Func("core.(*Parser).ParseObject")
+	newCS := c.P.Func("contentstream.NewParser")
+	parseCS := c.P.Func("contentstream.(*Parser).Parse")
+	cases := objectCases()
+	// the document parser
+	if newCore != nil && parseObj != nil && len(newCore.Params) == 1 && len(parseObj.Params) == 1 {
+		n, bad, skipped := 0, "", ""
+		for _, tc := range cases {
+			ev := eng.NewEvaluator()
+			ev.Steps = 400000
+			p, err := ev.Call(newCore, []any{&eng.EBytesReader{Data: []byte(tc.spelling)}}, 0)
+			var got any
+			if err == nil {
+				got, err = ev.Call(parseObj, []any{p}, 0)
+			}
+			if err != nil && !err.Panic {
+				skipped = fmt.Sprintf("%q: %s", tc.spelling, err.Msg)
+				break
+			}
+			n++
+			if err != nil {
+				bad = fmt.Sprintf("%q: %s", tc.spelling, err.Msg)
+				break
+			}
+			t, ok := got.(eng.ETuple)
+			if !ok || len(t) != 2 {
+				skipped = "ParseObject does not return (Object, error)"
+				break
+			}
+			if t[1] != nil {
+				bad = fmt.Sprintf("%q is refused with an error", tc.spelling)
+				break
+			}
+			tree, ok := treeOf(t[0])
+			if !ok {
+				skipped = fmt.Sprintf("%q: the result is not a readable object", tc.spelling)
+				break
+			}
+			if !treeEqual(tree, tc.tree) {
+				bad = fmt.Sprintf("%q is read as %#v, it stands for %#v", tc.spelling, tree, tc.tree)
+				break
+			}
+		}
+		if skipped != "" {
+			c.Ok(R, "core.(*Parser).ParseObject", parseObj.Pos(), "not evaluated: "+skipped)
+		} else {
+			c.Check(bad == "", R, "core.(*Parser).ParseObject#spellings", parseObj.Pos(), fmt.Sprintf("%d spellings evaluated", n), "the document parser does not read an object spelling as the object it stands for: "+bad)
+		}
+	} else {
+		c.Ok(R, "core.(*Parser).ParseObject", token.NoPos, "parser entry points not found: not evaluated")
+	}
+	// the content-stream parser: the object as the only operand of an operator
+	if newCS != nil && parseCS != nil && len(newCS.Params) == 1 && len(parseCS.Params) == 1 {
+		n, bad, skipped := 0, "", ""
+		for _, tc := range cases {
+			if tc.coreOnly {
+				continue
+			}
+			ev := eng.NewEvaluator()
+			ev.Steps = 400000
+			p, err := ev.Call(newCS, []any{eng.BytesOf([]byte(tc.spelling + " Tj"))}, 0)
+			var got any
+			if err == nil {
+				got, err = ev.Call(parseCS, []any{p}, 0)
+			}
+			if err != nil && !err.Panic {
+				skipped = fmt.Sprintf("%q: %s", tc.spelling, err.Msg)
+				break
+			}
+			n++
+			if err != nil {
+				bad = fmt.Sprintf("%q: %s", tc.spelling, err.Msg)
+				break
+			}
+			t, ok := got.(eng.ETuple)
+			if !ok || len(t) != 2 {
+				skipped = "Parse does not return (operations, error)"
+				break
+			}
+			if t[1] != nil {
+				bad = fmt.Sprintf("%q as an operand is refused with an error", tc.spelling)
+				break
+			}
+			ops, ok := t[0].(*eng.ESlice)
+			if !ok || len(ops.L) != 1 {
+				k := 0
+				if ok {
+					k = len(ops.L)
+				}
+				bad = fmt.Sprintf("%q Tj is read as %d operations, it is one", tc.spelling, k)
+				break
+			}
+			op, ok := ops.L[0].V.(*eng.EStruct)
+			if !ok || len(op.F) < 2 {
+				skipped = "Operation is not (Operator, Operands)"
+				break
+			}
+			operands, ok := op.F[1].(*eng.ESlice)
+			if name, _ := op.F[0].(string); !ok || name != "Tj" || len(operands.L) != 1 {
+				k := 0
+				if ok {
+					k = len(operands.L)
+				}
+				bad = fmt.Sprintf("%q Tj is read as operator %q with %d operands", tc.spelling, op.F[0], k)
+				break
+			}
+			tree, ok := treeOf(operands.L[0].V)
+			if !ok {
+				skipped = fmt.Sprintf("%q: the operand is not a readable object", tc.spelling)
+				break
+			}
+			if !treeEqual(tree, tc.tree) {
+				bad = fmt.Sprintf("the operand %q is read as %#v, it stands for %#v", tc.spelling, tree, tc.tree)
+				break
+			}
+		}
+		if skipped != "" {
+			c.Ok(R, "contentstream.(*Parser).Parse", parseCS.Pos(), "not evaluated: "+skipped)
+		} else {
+			c.Check(bad == "", R, "contentstream.(*Parser).Parse#spellings", parseCS.Pos(), fmt.Sprintf("%d operand spellings evaluated", n), "the content-stream parser does not read an operand spelling as the object it stands for: "+bad)
+		}
+	} else {
+		c.Ok(R, "contentstream.(*Parser).Parse", token.NoPos, "parser entry points not found: not evaluated")
+	}
+}
+
+// ---------------------------------------------------------------------------------------------------------------
+// R5.21 the predictors, read on small images of every geometry and row-filter mix.
+
+func pngPaeth(a, b, c int) int {
+	p := a + b - c
+	pa, pb, pc := p-a, p-b, p-c
+	if pa < 0 {
+		pa = -pa
+	}
+	if pb < 0 {
+		pb = -pb
+	}
+	if pc < 0 {
+		pc = -pc
+	}
+	if pa <= pb && pa <= pc {
+		return a
+	}
+	if pb <= pc {
+		return b
+	}
+	return c
+}
+
+// pngEncode applies the PNG row filters (tags[r] for row r) to raw rows of rowLen bytes with bpp bytes per pixel.
+func pngEncode(raw []byte, rowLen, bpp int, tags []int) []byte {
+	var out []byte
+	rows := len(raw) / rowLen
+	for r := 0; r < rows; r++ {
+		t := tags[r%len(tags)]
+		out = append(out, byte(t))
+		for i := 0; i < rowLen; i++ {
+			x := int(raw[r*rowLen+i])
+			a, b, c := 0, 0, 0
+			if i >= bpp {
+				a = int(raw[r*rowLen+i-bpp])
+			}
+			if r > 0 {
+				b = int(raw[(r-1)*rowLen+i])
+				if i >= bpp {
+					c = int(raw[(r-1)*rowLen+i-bpp])
+				}
+			}
+			p := 0
+			switch t {
+			case 1:
+				p = a
+			case 2:
+				p = b
+			case 3:
+				p = (a + b) / 2
+			case 4:
+				p = pngPaeth(a, b, c)
+			}
+			out = append(out, byte(x-p))
+		}
+	}
+	return out
+}
+
+// R5.21 [C05]
+func rulePredictorsInvert(c *eng.Ctx) {
+	const R = "R5.21-PREDICTORS-INVERT"
+	c.Rule(R, "filters.applyPredictor, evaluated on small images of 1-3 rows, 1-5 columns and 1 or 3 colour components (8 bits): predictor 1 returns the data; predictor 2 undoes the TIFF horizontal differencing; for every declared PNG predictor 10..15 and every mix of row filter tags 0..4 (None, Sub, Up, Average, Paeth) the rows encoded by a reference PNG filter written in the rule decode to the original bytes; a row tag above 4 gives an error", 1, 0)
+	fn := c.P.Func("internal/filters.applyPredictor")
+	if fn == nil || len(fn.Params) != 3 {
+		c.Ok(R, "internal/filters.applyPredictor", token.NoPos, "no such function with (data, predictor, params): not evaluated")
+		return
+	}
+	intT := types.Typ[types.Int]
+	mkParams := func(columns, colors int) *eng.EMap {
+		m := &eng.EMap{M: map[any]any{}}
+		for _, kv := range []struct {
+			k string
+			v int
+		}{{"Columns", columns}, {"Colors", colors}, {"BitsPerComponent", 8}} {
+			m.M[kv.k] = &eng.EIface{T: intT, V: int64(kv.v)}
+			m.Keys = append(m.Keys, kv.k)
+		}
+		return m
+	}
+	n, bad, skipped := 0, "", ""
+	run := func(data []byte, predictor, columns, colors int) ([]byte, bool, bool) {
+		ev := eng.NewEvaluator()
+		ev.Steps = 400000
+		got, err := ev.Call(fn, []any{eng.BytesOf(data), int64(predictor), mkParams(columns, colors)}, 0)
+		if err != nil {
+			if err.Panic {
+				return nil, true, true
+			}
+			skipped = err.Msg
+			return nil, false, false
+		}
+		t, ok := got.(eng.ETuple)
+		if !ok || len(t) != 2 {
+			skipped = "result is not (bytes, error)"
+			return nil, false, false
+		}
+		if t[1] != nil {
+			return nil, true, true
+		}
+		b, ok := evalBytes(t[0])
+		if !ok {
+			skipped = "result bytes not readable"
+			return nil, false, false
+		}
+		return b, false, true
+	}
+	seed := uint32(12345)
+	next := func() byte {
+		seed = seed*1664525 + 1013904223
+		return byte(seed >> 24)
+	}
+outer:
+	for _, rows := range []int{1, 2, 3} {
+		for _, columns := range []int{1, 2, 3, 5} {
+			for _, colors := range []int{1, 3} {
+				rowLen := columns * colors
+				raw := make([]byte, rows*rowLen)
+				for i := range raw {
+					raw[i] = next()
+				}
+				// predictor 1
+				out, failed, ok := run(raw, 1, columns, colors)
+				if !ok {
+					break outer
+				}
+				n++
+				if failed || string(out) != string(raw) {
+					bad = fmt.Sprintf("predictor 1, %dx%dx%d: the data is changed", rows, columns, colors)
+					break outer
+				}
+				// TIFF
+				enc := make([]byte, len(raw))
+				for r := 0; r < rows; r++ {
+					for i := 0; i < rowLen; i++ {
+						v := raw[r*rowLen+i]
+						if i >= colors {
+							v -= raw[r*rowLen+i-colors]
+						}
+						enc[r*rowLen+i] = v
+					}
+				}
+				out, failed, ok = run(enc, 2, columns, colors)
+				if !ok {
+					break outer
+				}
+				n++
+				if failed || string(out) != string(raw) {
+					bad = fmt.Sprintf("TIFF predictor, %d rows x %d columns x %d colours: % X decodes to % X, the image is % X", rows, columns, colors, enc, out, raw)
+					break outer
+				}
+				// PNG
+				for _, tags := range [][]int{{0}, {1}, {2}, {3}, {4}, {0, 1, 2}, {4, 3, 2}, {2, 4, 1}, {3, 3, 4}} {
+					for _, declared := range []int{10, 12, 15} {
+						enc := pngEncode(raw, rowLen, colors, tags)
+						out, failed, ok := run(enc, declared, columns, colors)
+						if !ok {
+							break outer
+						}
+						n++
+						if failed || string(out) != string(raw) {
+							bad = fmt.Sprintf("PNG predictor %d, row tags %v, %d rows x %d columns x %d colours: % X decodes to % X (error %v), the image is % X", declared, tags, rows, columns, colors, enc, out, failed, raw)
+							break outer
+						}
+					}
+				}
+			}
+		}
+	}
+	if bad == "" && skipped == "" {
+		_, failed, ok := run([]byte{5, 1, 2, 3}, 12, 3, 1)
+		if ok {
+			n++
+			if !failed {
+				bad = "a row with filter tag 5 is decoded without an error"
+			}
+		}
+	}
+	if skipped != "" {
+		c.Ok(R, "internal/filters.applyPredictor", fn.Pos(), "not evaluated: "+skipped)
+		return
+	}
+	c.Check(bad == "", R, "internal/filters.applyPredictor#spec", fn.Pos(), fmt.Sprintf("%d images evaluated", n), "a predictor does not invert its encoding: "+bad)
 }
